@@ -121,7 +121,12 @@ func ruleInjectiveEncoder(r *Run, fn *ssa.Function, name string, sinkPkg, sinkTy
 	}
 	nVar := 0
 	bad := false
-	for _, b := range fn.Blocks {
+	// the writes may sit in the function or in helpers it hands the sink to
+	var blocks []*ssa.BasicBlock
+	for _, gf := range funcGroup(fn) {
+		blocks = append(blocks, gf.Blocks...)
+	}
+	for _, b := range blocks {
 		var seq []wr
 		for _, in := range b.Instrs {
 			c, ok := in.(ssa.CallInstruction)
